@@ -107,6 +107,11 @@ Theorem C01_cache_ok_fresh : forall c h rk rkid sd l0 cache, cc_find_root (cc_ro
 Proof. exact cache_ok_fresh. Qed.
 Print Assumptions C01_cache_ok_fresh.
 
+(* for an accepted SID string the hypothesis sid_okb is just "shorter than 2^32 characters" (the string is ASCII) *)
+Theorem C01_sid_okb : forall str s, sid_parse str = Ok s -> len str < 4294967296 -> sid_okb str = true.
+Proof. exact sid_parse_okb. Qed.
+Print Assumptions C01_sid_okb.
+
 (* the symbolic instance used for the examples: sym guarded by "inputs are byte strings shorter than 2^32" (where it is
    sym: symg_is_sym) satisfies both law records as stated; the unguarded sym does not (4-byte length prefixes) *)
 Theorem C01_symg_laws : CryptoLaws symg /\ IdealLaws symg /\ kdf_nonempty symg.
